@@ -35,12 +35,19 @@ class SingleNode:
             pass
 
         class Disk(DiskInterface):
+            fail_debug_copy = False
+            debug_copy_failures = 0
+
             def save_transaction_for_debugging(self, transaction):     # keep /tmp clean
-                pass
+                if self.fail_debug_copy:
+                    # the debugging copy of a refused transaction cannot be written (disk full, no /tmp, read-only)
+                    self.debug_copy_failures += 1
+                    raise OSError(28, "No space left on device")
+        self.disk = Disk()
         self.net = simnet.Net(rng)
         self.net.clock.t = max(b.ts for b in world.chain.blocks.values()) + 100
         world.now = self.net.clock.t
-        self.node = self.net.add_node("N", addr, world.cs, Disk())
+        self.node = self.net.add_node("N", addr, world.cs, self.disk)
         self.lp = self.node.lp
         self.cm = self.lp.chain_manager
         self.nm = self.lp.network_manager
